@@ -624,6 +624,10 @@ class QuicConnection:
                 )
                 if packet.epoch == tls.Epoch.HANDSHAKE:
                     sent_handshake = True
+                if packet.is_ack_eliciting and packet.in_flight:
+                    # any ack-eliciting packet serves as the probe, do not
+                    # exceed the congestion window a second time
+                    self._probe_pending = False
 
                 # log packet
                 if self._quic_logger is not None:
